@@ -140,6 +140,10 @@ func c01Witnesses() []*Spec {
 		{Regs: []Reg{mkReg("Leaf_K1_a", godi.Singleton, withAs("IK1", "IA", "IB")), {Remove: true, RmType: "IK1", Tail: true}, mkReg("InU_0_2_Iface", godi.Scoped)}},
 		{Regs: []Reg{mkReg("OutP_K0K1", godi.Singleton), {Remove: true, RmType: "K0", Tail: true}, mkReg("Leaf_K0_b", godi.Transient), mkReg("PosA_2_3", godi.Scoped)}},
 		{Regs: []Reg{mkReg("MR_K0K1", godi.Singleton), {Remove: true, RmType: "K0", Tail: true}, mkReg("Leaf_K0_c", godi.Singleton), mkReg("PosA_2_3", godi.Singleton)}},
+		// ready values: several values of one concrete type, each under several aliases (told apart by key / group)
+		{Regs: []Reg{{Ctor: -1, Value: "S7", Life: godi.Singleton, Name: "k", As: []string{"IS7", "IA"}}, {Ctor: -1, Value: "S7", Life: godi.Singleton, Name: "k2", As: []string{"IS7", "IA"}}, {Ctor: -1, Value: "S7", Life: godi.Singleton}}},
+		{Regs: []Reg{{Ctor: -1, Value: "S6", Life: godi.Singleton, Group: "g", As: []string{"IS6", "IB"}}, {Ctor: -1, Value: "S6", Life: godi.Singleton, Group: "g", As: []string{"IS6", "IB"}}, {Ctor: -1, Value: "S6", Life: godi.Singleton, As: []string{"IS6", "IA"}}}},
+		{Regs: []Reg{{Ctor: -1, Value: "K0", Life: godi.Singleton, Name: "k", As: []string{"IK0", "IA"}}, {Remove: true, RmType: "IK0", RmKey: "k", Tail: true}, {Ctor: -1, Value: "K0", Life: godi.Singleton, Name: "k", As: []string{"IK0", "IB"}}}},
 		// initializer-style singletons (no service result) must not run again for later scopes
 		{Regs: []Reg{mkReg("Void0", godi.Singleton), mkReg("ErrOnly0", godi.Singleton), mkReg("Leaf_K0_a", godi.Singleton), mkReg("VoidK0", godi.Singleton), mkReg("Void0b", godi.Scoped)}},
 	}
